@@ -260,3 +260,8 @@ def get_global(module, name):
 def id_mapping(ids):
     """A device list (id -> traits) with exactly these ids (the abstract set itself when symbolic)."""
     return {k: {} for k in ids}
+
+
+def real(f, *args, **kwargs):
+    """Call the real function (natively there is nothing else)."""
+    return f(*args, **kwargs)
